@@ -21,7 +21,7 @@ func init() {
 		ID:    "C14",
 		Level: "exploration",
 		Rule: "E-twin x k: (1) cap(Events) of NewBufferedWatcher(n) == n for n in {0,1,2,4,...,65536} and 0 for NewWatcher; (2) 2-4 measured Watchers with different buffer sizes on the same directories plus 1-4 interfering Watchers doing PRNG Add/Remove/Close/re-create, " +
-			"all fed by one sequential syscall driver; every measured Watcher's stream must equal the translated kernel log (hence each other); (3) a buffered Watcher with no consumer must hold exactly n<=cap distinct events (len(Events)==n) and deliver them intact and in order when drained. " +
+			"all fed by one sequential syscall driver; every measured Watcher's stream must equal the translated kernel log (hence each other); (3) a buffered Watcher with no consumer must hold exactly n<=cap distinct events (len(Events)==n) and deliver them intact and in order when drained; and cap+1 IDENTICAL events, each generated only after the previous one was read out of the kernel queue (FIONREAD==0), must all be delivered. " +
 			"distinct_nontrivial = distinct (history, watcher configuration) runs with >=1 compared event",
 		Assumptions: []string{"kernel shadow = ground truth, one shadow per measured Watcher", "part (3) polls len(Events); if the count is never reached the goroutine dump decides (reader idle in read(2) => events were dropped), a busy reader is inconclusive"},
 		Batches:     func(t string) int { return map[string]int{"quick": 12, "thorough": 48}[t] },
